@@ -39,6 +39,13 @@ func main() {
 		}
 	}
 	gen(nil)
+	// spellings a decoder or a separator-normaliser could turn into dot segments, and paths led by a backslash
+	for _, p := range []string{"\\/../..", "\\../..", "\\..\\..", "\\\\/..", "\\/a/../../..", "/%2e%2e/%2e%2e/etc/passwd", "%2e%2e", "%2e%2e/%2e%2e", "..%2f..", "/a/%2E%2E/%2E%2E/x",
+		"%252e%252e/%252e%252e", "/.%2e/.%2e", "/%2e./%2e.", "/..%5c..", "%2f..%2f..", "/a%2f..%2f..%2f..", "%00/../..", "/..;/..", "/..%00/..", "/.../....//..", "/a/b/../../../..", "//..//..//"} {
+		for _, b := range bases {
+			w.Put(rec{vio.Ints(b), vio.Ints(p), vio.Ints(fsutil.ResolveUrlPath(b, p))})
+		}
+	}
 	rng := rand.New(rand.NewSource(vio.Seed()))
 	pieces := []string{"/", "//", ".", "..", "...", "a", "\\", "..\\", "%2e", "\x00", "\xff", " ", "../", "/..", "b.c", "~"}
 	moreBases := append([]string{"/var/www", "a/b/c", "../../y", "/x/./y/", "./", "..", "/.."}, bases...)
